@@ -122,9 +122,10 @@ func sweepRecord(P *Program) {
 	var proved []string
 	for _, r := range results {
 		// only obligations decided quickly are recorded: they must stay far from the check's timeout
-		if r.Obl.Kind == "nil" || strings.Contains(r.Obl.Name, "/index/varargs[") {
-			continue // mostly unprovable without preconditions / carry no information
+		if strings.Contains(r.Obl.Name, "/index/varargs[") {
+			continue // carries no information
 		}
+
 		if r.OK && r.Res.Ms < 1500 {
 			proved = append(proved, r.Obl.Name)
 		} else if os.Getenv("YQV_SWEEP_LIST") != "" {
@@ -133,7 +134,7 @@ func sweepRecord(P *Program) {
 	}
 	sort.Strings(proved)
 	data, _ := json.MarshalIndent(map[string]interface{}{
-		"comment": "panic obligations (index, slice, division, make, type assertion, explicit panic) of functions without a contract that are provable without any precondition; recorded by `yqv sweep-record`, re-proved by every C11 check; nil-dereference obligations and indexings of variadic argument arrays are left out",
+		"comment": "panic obligations (nil dereference, index, slice, division, make, type assertion, explicit panic) of functions without a contract that are provable without any precondition (a dereference is provable when a test or an earlier dereference of the same value guards it); recorded by `yqv sweep-record`, re-proved by every C11 check; indexings of variadic argument arrays are left out",
 		"proved":  proved,
 	}, "", " ")
 	os.WriteFile(filepath.Join(P.verif, "tables", "c11_sweep_proved.json"), data, 0o644)
